@@ -70,6 +70,46 @@ Proof.
 Qed.
 Print Assumptions C12_child_fds_example.
 
+(* The same through uv_spawn, from the stdio containers (any stdio_count, the
+   rows above it padded to 3): with inherited descriptors that are open and no
+   failing step, uv_spawn returns 0, the handle is active, and in the child
+   slot i is the inherited file / /dev/null / the child's end (file 2j+1 of
+   the j-th socketpair) of a UV_CREATE_PIPE slot, nothing above max(3, count)
+   except what the parent held inheritable ... *)
+Theorem C12_spawn_stdio_child :
+  forall sp wo,
+  (forall c, In c (s_stdio sp) -> c <> SBad) ->
+  (forall i fd, nth_error (s_stdio sp) i = Some (SFd fd) -> get (s_tbl sp) fd <> None) ->
+  s_sp_fail sp = None -> s_pipe_fail sp = false -> s_fork_fail sp = false ->
+  s_exec_err sp = None ->
+  let r := fst (uv_spawn sp wo) in
+  let sc := Nat.max 3 (length (s_stdio sp)) in
+  r_ret r = 0%Z /\ r_active r = true /\
+  exists t', r_child r = Some (CExec t') /\
+    (forall i, i < sc ->
+       get t' i =
+       match nth i (s_stdio sp) SIgnore with
+       | SFd fd => option_map (fun e => mkE (e_file e) false) (get (s_tbl sp) fd)
+       | SPipe => Some (mkE (S (s_fresh sp + 2 * npipes (firstn i (s_stdio sp)))) false)
+       | _ => if i <? 3 then Some (mkE devnull false) else exec_entry (get (s_tbl sp) i)
+       end) /\
+    (forall d, sc <= d -> get t' d = exec_entry (get (s_tbl sp) d)).
+Proof. exact spawn_fds. Qed.
+Print Assumptions C12_spawn_stdio_child.
+
+(* ... and the parent's stream of such a slot holds the other end (file 2j) of
+   the same pair, close-on-exec, whether or not the exec succeeds. *)
+Theorem C12_spawn_stdio_parent :
+  forall sp wo i,
+  (forall c, In c (s_stdio sp) -> c <> SBad) ->
+  s_sp_fail sp = None -> s_pipe_fail sp = false -> s_fork_fail sp = false ->
+  nth_error (s_stdio sp) i = Some SPipe ->
+  let r := fst (uv_spawn sp wo) in
+  exists a, In (i, a) (r_streams r) /\
+    get (r_ptbl r) a = Some (mkE (s_fresh sp + 2 * npipes (firstn i (s_stdio sp))) true).
+Proof. exact spawn_streams. Qed.
+Print Assumptions C12_spawn_stdio_parent.
+
 (* ---- the error pipe ------------------------------------------------------ *)
 
 (* If the write end of the error pipe is at or above stdio_count, or on an
